@@ -13,10 +13,11 @@ ASSUMPTIONS = ['strict comparators are shifted by tolerance(rhs) as documented; 
                'penalty values compared with rel 1e-9', 'the constraint-drives-penalty-to-zero clause uses isolated-form texts whose left-hand variables do not feed one another']
 CLASSES = {
     'conditions': {'quick': 6000, 'thorough': 280000},
+    'interleaved': {'quick': 1000, 'thorough': 40000},
     'penalty': {'quick': 4000, 'thorough': 160000},
     'constraint_zeroes_penalty': {'quick': 1600, 'thorough': 60000},
 }
-MIN_EVENTS = {'quick': {'assert:cond': 6000, 'assert:pen': 3000, 'assert:cross': 700}}
+MIN_EVENTS = {'quick': {'assert:cond': 6000, 'assert:pen': 3000, 'assert:cross': 700, 'interleaved_sets_judged': 2000, 'with_user_locals': 1000}}
 CASE_TIMEOUT = 120
 CMPS = ['=', '==', '<=', '>=', '<', '>']
 
@@ -44,13 +45,13 @@ def gen_text(rng, n, names, isolated=False, nlines=None, allow_ne=False):
     return '\n'.join('%s %s %s' % s for s in specs), specs
 
 
-def expected_condition(lhs, cmp, rhs):
+def expected_condition(lhs, cmp, rhs, tol=1e-15, rel=1e-15):
     """documented orientation: inequality holds iff value <= 0, equality iff value == 0"""
     if cmp in ('=', '=='): return 'eq', lhs - rhs
     if cmp == '<=': return 'ineq', lhs - rhs
     if cmp == '>=': return 'ineq', -(lhs - rhs)
-    if cmp == '<': return 'ineq', lhs - (rhs - T.tolerance(rhs))
-    if cmp == '>': return 'ineq', -(lhs - (rhs + T.tolerance(rhs)))
+    if cmp == '<': return 'ineq', lhs - (rhs - T.tolerance(rhs, tol, rel))
+    if cmp == '>': return 'ineq', -(lhs - (rhs + T.tolerance(rhs, tol, rel)))
     if cmp == '!=': return 'eq', float((lhs - rhs) == 0)
     raise ValueError(cmp)
 
@@ -65,54 +66,119 @@ def evaluate(specs, names, x, extra=None):
     return out
 
 
-def run_conditions(rng, obs):
-    from mystic.symbolic import generate_conditions
+TOLS = [(1e-6, 0.0), (1e-9, 1e-9), (0.5, 0.0), (1e-3, 1e-3), (1e-15, 1e-15)]
+
+
+def gen_cond_case(rng, p_locals=0.2, p_tol=0.15):
     n = rng.choice([1, 2, 3, 5, 8, 12])
     variables, names = gen_names(rng, n)
-    extra = {'c0': rng.choice([2.0, -1.5])} if rng.random() < 0.2 else None
+    extra = {'c0': rng.choice([2.0, -1.5, 40.0, 0.25])} if rng.random() < p_locals else None
+    tol, rel = 1e-15, 1e-15
+    if rng.random() < p_tol:
+        tol, rel = rng.choice(TOLS)
+        extra = dict(extra or {}, tol=tol, rel=rel)
     text, specs = gen_text(rng, n, names, allow_ne=True)
-    if extra:       # an extra local used on some right-hand side
+    if extra and 'c0' in extra:       # an extra local used on some right-hand side
         lhs, cmp, rhs = specs[0]
         specs[0] = (lhs, cmp, '(%s) + c0' % rhs)
         text = '\n'.join('%s %s %s' % s for s in specs)
     x = gen_x(rng, n)
-    obs.desc = {'text': text, 'variables': variables if isinstance(variables, str) else names, 'n': n, 'x': x, 'locals': extra}
     try:
         vals = evaluate(specs, names, x, extra)
     except (ZeroDivisionError, OverflowError, ValueError):
-        obs.skip('text undefined at x'); return
-    # put the point on a boundary sometimes (single variable on the left)
-    ineqf, eqf = generate_conditions(text, variables=variables, nvars=n, locals=dict(extra) if extra else None)
-    want = [expected_condition(l, c, r) for (l, c, r) in vals]
+        return None
+    return {'text': text, 'specs': specs, 'n': n, 'variables': variables, 'names': names, 'x': x, 'locals': extra, 'tol': tol, 'rel': rel, 'vals': vals}
+
+
+def judge_conditions(obs, conds, cs, tag=''):
+    ineqf, eqf = conds
+    text, x, vals, tol, rel = cs['text'], cs['x'], cs['vals'], cs['tol'], cs['rel']
+    ctx = {'context': tag, 'locals': cs['locals']} if tag else {'locals': cs['locals']}
+    want = [expected_condition(l, c, r, tol, rel) for (l, c, r) in vals]
     wi = [v for k, v in want if k == 'ineq']; we = [v for k, v in want if k == 'eq']
     obs.check(len(ineqf) == len(wi) and len(eqf) == len(we), 'cond:lines are classified into inequality and equality conditions', text=text,
               observed=[len(ineqf), len(eqf)], expected=[len(wi), len(we)])
-    if len(ineqf) != len(wi) or len(eqf) != len(we): return
+    if len(ineqf) != len(wi) or len(eqf) != len(we): return None
     sat_flags = []
     for fs, ws, kind in ((ineqf, wi, 'ineq'), (eqf, we, 'eq')):
         for f, w in zip(fs, ws):
             got = float(f(list(x)))
             obs.check(close(got, w, 1e-9) or abs(got - w) <= 1e-9 * (1 + abs(w)), 'cond:condition value is lhs-rhs in the documented orientation', text=text,
-                      condition=f.__doc__, x=x, observed=got, expected=w, kind=kind)
+                      condition=f.__doc__, x=x, observed=got, expected=w, kind=kind, **ctx)
     # sign <=> satisfaction of each line (outside the strictness band)
     k_i = k_e = 0
     for (l, c, r) in vals:
-        kind, w = expected_condition(l, c, r)
+        kind, w = expected_condition(l, c, r, tol, rel)
         f = (ineqf[k_i] if kind == 'ineq' else eqf[k_e])
         if kind == 'ineq': k_i += 1
         else: k_e += 1
         got = float(f(list(x)))
         holds = T.holds(l, c, r)
         sat_flags.append(holds)
-        band = c in ('<', '>') and abs(l - r) <= 4 * T.tolerance(r)
+        band = c in ('<', '>') and abs(l - r) <= 4 * T.tolerance(r, tol, rel)
         if band:
             obs.event('strictness_band_not_judged'); continue
         if abs(l - r) <= 1e-9 * max(1.0, abs(l), abs(r)) and l != r:
             obs.event('rounding_band_not_judged'); continue
         says = (got <= 0) if kind == 'ineq' else (got == 0)
-        obs.check(says == holds, 'cond:the line holds iff its condition is <= 0 (inequality) / == 0 (equality)', text=text, line=[l, c, r], value=got, holds=holds)
-    obs.nontrivial = (True in sat_flags and False in sat_flags) or any(l == r for l, c, r in vals)
+        obs.check(says == holds, 'cond:the line holds iff its condition is <= 0 (inequality) / == 0 (equality)', text=text, line=[l, c, r], value=got, holds=holds, **ctx)
+    return sat_flags
+
+
+def run_conditions(rng, obs):
+    from mystic.symbolic import generate_conditions
+    cs = gen_cond_case(rng)
+    if cs is None:
+        obs.skip('text undefined at x'); return
+    obs.desc = {'text': cs['text'], 'variables': cs['variables'] if isinstance(cs['variables'], str) else cs['names'], 'n': cs['n'], 'x': cs['x'], 'locals': cs['locals']}
+    conds = generate_conditions(cs['text'], variables=cs['variables'], nvars=cs['n'], locals=dict(cs['locals']) if cs['locals'] else None)
+    sat_flags = judge_conditions(obs, conds, cs)
+    if sat_flags is None: return
+    if cs['locals']: obs.event('with_user_locals')
+    obs.nontrivial = (True in sat_flags and False in sat_flags) or any(l == r for l, c, r in cs['vals'])
     obs.notes = {'lines_satisfied': sat_flags}
+
+
+def run_interleaved(rng, obs):
+    """several condition sets (and their penalties) are generated first - the same constant name with different values, different
+    strictness tolerances, plain ones - then all are evaluated: each must keep measuring ITS text with ITS locals"""
+    from mystic.symbolic import generate_conditions, generate_penalty, generate_solvers
+    k = rng.randint(2, 5)
+    css = []
+    for _ in range(3 * k):
+        cs = gen_cond_case(rng, p_locals=0.6, p_tol=0.5)
+        if cs is not None: css.append(cs)
+        if len(css) == k: break
+    if len(css) < 2:
+        obs.skip('too few defined texts'); return
+    built = [generate_conditions(cs['text'], variables=cs['variables'], nvars=cs['n'], locals=dict(cs['locals']) if cs['locals'] else None) for cs in css]
+    pens = [generate_penalty(b) if not any('!=' == c for _, c, _ in cs['specs']) else None for b, cs in zip(built, css)]
+    extra = rng.random() < 0.5
+    if extra:
+        generate_conditions('x0 < c0', nvars=1, locals={'c0': 123.0, 'tol': 0.25, 'rel': 0.0})
+        generate_solvers('x0 = c0', nvars=1, locals={'c0': -77.0})
+        generate_conditions('x0 <= 1.0', nvars=1)
+    order = list(range(len(css))); rng.shuffle(order)
+    obs.desc = {'texts': [cs['text'] for cs in css], 'locals': [cs['locals'] for cs in css], 'x': [cs['x'] for cs in css], 'order': order, 'extra_builds': extra}
+    mixed = False
+    for j in order:
+        cs = css[j]
+        tag = 'built %d generator call(s) later' % (len(css) - 1 - j + (3 if extra else 0))
+        flags = judge_conditions(obs, built[j], cs, tag=tag)
+        obs.event('interleaved_sets_judged')
+        if flags is None: continue
+        if True in flags and False in flags: mixed = True
+        if pens[j] is not None:      # default quadratic penalty, k=100: documented per-line sum
+            total = 0.0
+            for (l, c, r) in cs['vals']:
+                kind, w = expected_condition(l, c, r, cs['tol'], cs['rel'])
+                total += line_term('quadratic', kind, w, 100)
+            got = float(pens[j](list(cs['x'])))
+            same = (got == total) if not math.isfinite(total) else (close(got, total, 1e-9) or abs(got - total) <= 1e-9 * (1 + abs(total)))
+            obs.check(same, 'pen:penalty equals the documented sum of per-line terms', text=cs['text'], x=cs['x'], observed=got, expected=total, locals=cs['locals'], context=tag)
+    shared = sum(1 for cs in css if cs['locals']) >= 2
+    obs.nontrivial = mixed and shared
+    obs.notes = {'sets': len(css), 'with_locals': sum(1 for cs in css if cs['locals'])}
 
 
 def line_term(ptype_family, kind, w, K):
@@ -215,4 +281,4 @@ def run_case(cls, idx, rng, obs):
     import warnings
     warnings.simplefilter('ignore')
     np.seterr(all='ignore')
-    return {'conditions': run_conditions, 'penalty': run_penalty, 'constraint_zeroes_penalty': run_cross}[cls](rng, obs)
+    return {'conditions': run_conditions, 'interleaved': run_interleaved, 'penalty': run_penalty, 'constraint_zeroes_penalty': run_cross}[cls](rng, obs)
